@@ -11,13 +11,15 @@ import (
 	"fmt"
 	"strconv"
 	"strings"
+	"time"
 )
 
 var baseBody = []byte(`{"k":"v","n":12}`) // 16 bytes
 
 type signerT struct {
-	Label string
-	Key   []byte
+	Label       string
+	Key         []byte
+	From, Until time.Time // validity window of the version (zero From: inline secret)
 }
 
 type hmacGen struct {
